@@ -177,6 +177,12 @@ def generate(ctx):
                 args = {"by": "w", "ascending": asc, "na_position": na_position}
             else:
                 by = [f"n.{rng.choice(sortable)}", rng.choice(["w", "other.q"])]
+                if i % 20 >= 10:
+                    # two nests holding the SAME field names: the keys still name two layers
+                    nf["m"] = pd.Series(nf["n"].array.copy(), index=nf.index, name="m")
+                    whole = fo.snapshot(nf)
+                    k1 = rng.choice(sortable)
+                    by = [f"n.{k1}", f"m.{rng.choice([k1] + sortable)}"]
                 rng.shuffle(by)
                 res = attempt(lambda: nf.sort_values(by))
                 term = f"[true; {cq_bool(res[0] == 'err' and fo.snapshot(nf) == whole)}; true; true]"
